@@ -39,8 +39,8 @@ LineMovesT(q) == {R(g, d, B, B, "c") : g \in {T(q.cm, B) - 1, T(q.cm, B), T(q.wm
 LineMoves4(q) == {R(g, d, B, B, "c") : g \in {T(q.cm, B) - 1, T(q.cm, B), T(q.wm, B) + 1}, d \in {0, B - T(q.lo, B), B - T(q.lo, B) + 1}}
 ParamsLineQ == {PR(<<1, 2>>, cm, wm, <<1, 2>>, <<1, 2>>, dv, FALSE) :
                   cm \in {<<2, 1>>, <<1, 2>>}, wm \in {<<1, 8>>, <<1, 2>>, <<0, 1>>}, dv \in BOOLEAN}
-ParamsLineQH == {q \in ParamsLineQ : ~q.dv}
-ParamsLineQV == {q \in ParamsLineQ : q.dv /\ q.cm = <<2, 1>>}
+ParamsLineQH == {q \in ParamsLineQ : ~q.dv /\ (q.cm = <<2, 1>> \/ q.wm = <<1, 8>>)}
+ParamsLineQV == {q \in ParamsLineQ : q.dv /\ q.cm = <<2, 1>> /\ q.wm # <<1, 2>>}
 ParamsLineM == {PR(lo, cm, wm, <<1, 2>>, <<1, 2>>, dv, FALSE) :
                   lo \in {<<1, 2>>, <<1, 4>>}, cm \in {<<2, 1>>, <<1, 2>>}, wm \in {<<1, 8>>, <<1, 2>>, <<0, 1>>}, dv \in BOOLEAN}
 ParamsLineT == {PR(lo, cm, wm, <<1, 2>>, <<1, 2>>, dv, FALSE) :
@@ -137,6 +137,16 @@ WideMoves(q) == {R(g, 0, w, B, "c") : g \in Around(T(q.wm, 2 * B)) \cup Around(T
 WideMovesQ(q) == {R(g, 0, w, B, "c") : g \in Around(T(q.wm, 2 * B)) \cup Around(T(q.wm, B)), w \in {B, 2 * B}}
 ParamsWideQ == {PR(<<1, 2>>, <<2, 1>>, wm, <<1, 2>>, <<1, 2>>, dv, FALSE) : wm \in {<<1, 2>>, <<1, 10>>}, dv \in BOOLEAN}
 ParamsWide == {PR(<<1, 2>>, <<2, 1>>, wm, <<1, 2>>, <<1, 2>>, dv, FALSE) : wm \in {<<1, 8>>, <<1, 2>>, <<1, 10>>, <<3, 4>>}, dv \in BOOLEAN}
+\* ------------------------------------------------------------------ columns of vertical writing: find_neighbors of vertical lines
+\* built as rows and transposed (detect_vertical on): a long line (two glyphs 12 wide) and a short one (two glyphs 8 wide)
+\* one unit apart (line_margin 1/4: d = 2), the short one placed so that the two are aligned at the start (0), at the
+\* end (8), only in the middle (3, 4, 5), around the thresholds (2, 6) or not at all (-3, 11).  Transposed this is a
+\* short column beside a long one, aligned at the top / bottom / centre only / not at all.
+FirstVCol(q) == {[m |-> "A", bb |-> <<376, 392, 388, 400>>, t |-> "c"]}
+VColMovesQ(q) == {R(0, 0, 12, B, "c"), R(0, 0, B, B, "c")} \cup {D(1, x, B, B, "c") : x \in {0, 8, 4, 0 - 3}}
+VColMovesT(q) == {R(0, 0, 12, B, "c"), R(0, 0, B, B, "c")}
+                 \cup {D(g, x, B, B, "c") : g \in {0, 1, 2}, x \in {0, 8, 2, 3, 4, 5, 6, 7, 0 - 3, 11}}
+ParamsVCol == {PR(<<1, 2>>, <<2, 1>>, <<1, 8>>, <<1, 4>>, bf, TRUE, FALSE) : bf \in {<<1, 2>>, None}}
 NoDev == {}
 PageOnly == {"page"}
 PageAndFigure == {"page", "figure"}
